@@ -595,8 +595,23 @@ def mp4_fuzz(ctx, watch):
                     a.toJSON()
                 ctx.dist('mp4:%s:accepted' % kind)
             except TimeoutError:
+                # the known class: some sample_count (trun / senc / saiz) far beyond the box, whichever mutation produced it
+                cause = kind
+                try:
+                    for bx in boxwalk.parse(bad):
+                        stack = [bx]
+                        while stack:
+                            y = stack.pop()
+                            stack.extend(y.children)
+                            if y.type in (b'trun', b'senc', b'saiz') and len(y.payload) >= 8:
+                                pl = y.payload
+                                cnt = int.from_bytes(pl[4:8], 'big') if y.type != b'saiz' else int.from_bytes(pl[5:9] if not pl[3] & 1 else pl[13:17], 'big')
+                                if cnt > 100000:
+                                    cause = 'count'
+                except Exception:  # noqa
+                    pass
                 ctx.violation('Mp4Atom.load (%s) on %s after %s did not finish within %d s' % ('lazy' if lazy else 'eager', name, kind, limit),
-                              inp, key='mp4:HANG:%s' % kind)
+                              inp, key='mp4:HANG:%s' % cause)
             except MemoryError:
                 ctx.violation('Mp4Atom.load on %s after %s ran out of memory' % (name, kind), inp, key='mp4:MemoryError')
             except RecursionError:
